@@ -422,7 +422,8 @@ def row_matches(facts, rl, inv, ref, row, role_refs=()):
                         ok = True
             elif tk == "duplicate-insert":
                 ok = len(trigs) == 1 and all((t[0] == "pred" and t[1] == "std::option::Option::<T>::is_some" and t[3] is True and "HashMap" in str(t[2]) and "::insert" in str(t[2]))
-                                             or (t[0] in ("is", "callres") and t[-1] == "Occupied" and "HashMap" in str(t) and "::entry" in str(t)) for t in trigs)
+                                             or (t[0] in ("is", "callres") and t[-1] == "Occupied" and "HashMap" in str(t) and "::entry" in str(t))
+                                             or (t[0] in ("is", "callres") and t[-1] == "Some" and "HashMap" in str(t) and "::insert" in str(t)) for t in trigs)
             elif tk == "hex":
                 # any(!hexdigit) true | len % 2 != 0   -- details are checked by C12 HEX-GUARD
                 kinds = sorted(t[0] for t in trigs)
